@@ -39,6 +39,7 @@ func checkC05(w *World, r *Report) {
 	r.Rule("R05.5", "every TLS primitive takes its config from the manager", 6)
 	r.Rule("R05.6", "shared-secret key derivation agrees on both ends", 1)
 	r.Rule("R05.8", "a server whose TLS configuration demands client certificates admits no clear-text session", 1)
+	r.Rule("R05.11", "the client-certificate requirement flag is set on every path that asked the manager for its configuration, failure included", 1)
 	r.Rule("R05.10", "the role-less base certificate Config never acts as a certificate manager", 1)
 	r.Rule("R05.9", "a TLS dial to a resolved address verifies the certificate against the configured host name", 1)
 	r.Rule("R05.7", "GetTlsConfig hands out a fresh configuration (callers mutate it)", 3)
@@ -980,6 +981,7 @@ func c05NoPlainAdmission(w *World, r *Report) {
 			}
 		})
 	}
+	c05RequirementSurvivesConfigError(w, r, newSC, reqFields)
 	secureF := fieldOf(scNamed, "secure")
 	factsJustify := func(facts map[ssa.Value]bool) bool {
 		for v, t := range facts {
@@ -1244,4 +1246,173 @@ func c05RoleConfig(w *World, r *Report) {
 	}
 	sort.Strings(bad)
 	r.Check(len(bad) == 0 && n > 0, "R05.10", "managers:cert.TlsConfig", "-", fmt.Sprintf("%d value(s) boxed as certificate manager, none of the role-less base type", n), strings.Join(bad, "; ")+mapStr(n == 0, "no certificate manager value found"))
+}
+
+
+// c05RequirementSurvivesConfigError: R05.11 — the requirement flag(s) R05.8 relies on are zero (= "no
+// requirement") until stored. In every handshake function that asks the manager for its TLS configuration
+// and (itself or through helpers) stores such a flag, each path from that request to a successful return
+// must store the flag, and not the constant false: otherwise a manager whose key material cannot be
+// loaded (file rotated away, unreadable) turns requireClientCert off and clear-text sessions are admitted.
+func c05RequirementSurvivesConfigError(w *World, r *Report, newSC *ssa.Function, reqFields map[*types.Var]bool) {
+	rule := "R05.11"
+	if len(reqFields) == 0 {
+		r.Hold(rule, "flags:ClientAuth-derived", "-", "no requirement flag is kept (R05.8 decides whether the configuration is consulted directly)")
+		return
+	}
+	isReqStore := func(in ssa.Instruction) (*ssa.Store, bool) {
+		st, ok := in.(*ssa.Store)
+		if !ok {
+			return nil, false
+		}
+		if fa := asFieldAddr(st.Addr); fa != nil && reqFields[fieldVarOf(fa)] {
+			return st, true
+		}
+		return nil, false
+	}
+	// helper summary: f stores a requirement flag on every path to a return
+	var storesAlways func(f *ssa.Function, d int) bool
+	storesAlways = func(f *ssa.Function, d int) bool {
+		if f == nil || !inModule(f) || len(f.Blocks) == 0 || d > 3 {
+			return false
+		}
+		all, n := true, 0
+		okp := enumPaths(f, nil, func(in ssa.Instruction) bool {
+			if _, ok := isReqStore(in); ok {
+				return true
+			}
+			if c, ok := in.(*ssa.Call); ok {
+				return storesAlways(c.Call.StaticCallee(), d+1)
+			}
+			return false
+		}, nil, func(e pathExit) {
+			if _, isRet := e.Last.(*ssa.Return); !isRet {
+				return
+			}
+			n++
+			if len(e.State.Events) == 0 {
+				all = false
+			}
+		})
+		return okp && all && n > 0
+	}
+	isGetConfig := func(in ssa.Instruction) bool {
+		c, ok := in.(ssa.CallInstruction)
+		if !ok {
+			return false
+		}
+		callee := sCallee(c)
+		return callee != nil && callee.Name() == "GetTlsConfig" && callee.Pkg() != nil && callee.Pkg().Path() == modPath+"/internal/util/cert"
+	}
+	nfun := 0
+	for _, f := range staticCone(newSC, 3) {
+		asks := false
+		allInstrs(f, func(in ssa.Instruction) {
+			if isGetConfig(in) {
+				asks = true
+			}
+		})
+		if !asks {
+			continue
+		}
+		stores := false
+		for _, g := range staticCone(f, 3) {
+			allInstrs(g, func(in ssa.Instruction) {
+				if _, ok := isReqStore(in); ok {
+					stores = true
+				}
+			})
+		}
+		if !stores {
+			continue
+		}
+		nfun++
+		key := "func:" + ssaFuncKey(f) + "|requirement-after-GetTlsConfig"
+		errIdx := -1
+		if res := f.Signature.Results(); res.Len() > 0 && isErrorType(res.At(res.Len()-1).Type()) {
+			errIdx = res.Len() - 1
+		}
+		bad, npaths := "", 0
+		okp := enumPaths(f, nil, func(in ssa.Instruction) bool {
+			if isGetConfig(in) {
+				return true
+			}
+			if _, ok := isReqStore(in); ok {
+				return true
+			}
+			if c, ok := in.(*ssa.Call); ok {
+				return storesAlways(c.Call.StaticCallee(), 1)
+			}
+			return false
+		}, nil, func(e pathExit) {
+			ret, isRet := e.Last.(*ssa.Return)
+			if !isRet {
+				return
+			}
+			if errIdx >= 0 && !isConstNil(e.State.Resolve(ret.Results[errIdx])) {
+				return
+			}
+			last := -1
+			for i, ev := range e.State.Events {
+				if isGetConfig(ev) {
+					last = i
+				}
+			}
+			if last < 0 {
+				return
+			}
+			npaths++
+			good := false
+			var at ssa.Instruction = e.State.Events[last]
+			for _, ev := range e.State.Events[last+1:] {
+				if st, ok := isReqStore(ev); ok {
+					if b, isC := constBool(e.State.Resolve(st.Val)); isC && !b && !errKnownNil(e.State, e.State.Events[last]) {
+						good = false
+						at = st
+						continue
+					}
+					good = true
+				} else if !isGetConfig(ev) {
+					good = true
+				}
+			}
+			if !good && bad == "" {
+				bad = fmt.Sprintf("%s: a path from the manager's GetTlsConfig to a successful return (%s) leaves the client-certificate requirement flag unset or false: when the configuration cannot be loaded, requireClientCert is silently dropped and clear-text sessions are admitted", w.Pos(at.Pos()), w.Pos(ret.Pos()))
+			}
+		})
+		if !okp {
+			r.Undecided(rule, key, w.Pos(f.Pos()), "path budget exceeded")
+			continue
+		}
+		r.Check(bad == "" && npaths > 0, rule, key, w.Pos(f.Pos()), fmt.Sprintf("%d successful path(s) through GetTlsConfig; each stores the requirement flag afterwards", npaths), bad+mapStr(npaths == 0, "no successful path through GetTlsConfig"))
+	}
+	if nfun == 0 {
+		r.Violate(rule, "func:requirement-after-GetTlsConfig", "-", "no handshake function both asks the manager for its configuration and sets the requirement flag")
+	}
+}
+
+// errKnownNil: the path took the `err == nil` side for the error result of call.
+func errKnownNil(st *pathState, call ssa.Instruction) bool {
+	cv, ok := call.(ssa.Value)
+	if !ok {
+		return false
+	}
+	for v, t := range st.Facts {
+		b, ok := v.(*ssa.BinOp)
+		if !ok || (b.Op != token.NEQ && b.Op != token.EQL) {
+			continue
+		}
+		x, y := b.X, b.Y
+		if isConstNil(x) {
+			x, y = y, x
+		}
+		ex, isEx := x.(*ssa.Extract)
+		if !isEx || ex.Tuple != cv || !isConstNil(y) || !isErrorType(ex.Type()) {
+			continue
+		}
+		if (b.Op == token.NEQ && !t) || (b.Op == token.EQL && t) {
+			return true
+		}
+	}
+	return false
 }
